@@ -305,6 +305,12 @@ def runCompiled (tbl : Option Nat → Nat → Option Repl) (rb : Option Nat) (w 
 /-- M, end to end: compile, then run. -/
 def runM (p : Program) (w : List Nat) : List Item := runCompiled (table p) p.rb w
 
+/-- M: `run_with_options(word, RunOptions { disable_left_boundary: true, .. })` (mod.rs:242–247):
+the first character is the first left character; an empty word yields nothing. -/
+def runNoLB (p : Program) : List Nat → List Item
+  | [] => []
+  | c :: w => goL (table p) p.rb w (some c) true none
+
 /-! ## Observations -/
 
 /-- What the property compares: characters, ligature glyphs and kerns, in order. -/
@@ -403,6 +409,10 @@ def interp (p : Program) : Nat → List El → Option (List Glyph)
 a boundary character. -/
 def seqOf (p : Program) (w : List Nat) : List El :=
   [El.lb] ++ w.map El.ch ++ (if p.rb.isSome then [El.rb] else [])
+
+/-- The sequence for a word run without the left boundary. -/
+def seqNoLB (p : Program) (w : List Nat) : List El :=
+  w.map El.ch ++ (if p.rb.isSome then [El.rb] else [])
 
 def elOf : Option Nat → El
   | none => .lb
